@@ -621,11 +621,13 @@ def pair_worker(job):
                               % (i1[0], lib.text_of(i1[1], i1[2]), i2[0], lib.text_of(i2[1], i2[2]), r2[:160], COLD[b][:160]))
     return sub.dump()
 
+_WORKERS = dict(sweep='sweep_worker', pairs='pair_worker', tpairs='typed_pair_worker', ttriples='typed_triple_worker')
 def any_worker(job):
-    if job[0] == 'sweep': return sweep_worker(job[1])
-    if job[0] == 'pairs': return pair_worker(job[1])
-    if job[0] == 'tpairs': return typed_pair_worker(job[1])
-    return typed_triple_worker(job[1])
+    import time as _time
+    t0 = _time.process_time()
+    d = globals()[_WORKERS[job[0]]](job[1])
+    sub = core.Sub(); sub.count('worker_cpu_ms:' + job[0], int((_time.process_time() - t0) * 1000))
+    return [d, sub.dump()]
 
 def cold_worker(idxs):
     out = []
@@ -947,8 +949,8 @@ def run(ctx):
                 if len(idxs) <= 16 and st[1] in (T_COND[0], T_EXPR[0], T_COL[0], T_EXPR[1]):
                     jobs += [('ttriples', (idxs, p, 4)) for p in range(4)]
         before_sweep = set(ctx.found)
-        for d in ctx.pmap(any_worker, ctx.shuffled(jobs)):
-            core.absorb(ctx, d)
+        for d2 in ctx.pmap(any_worker, ctx.shuffled(jobs)):
+            for d in d2: core.absorb(ctx, d)
         distinct = ctx.counters.pop('distinct_nontrivial', 0)
         sweep_sigs = set(sig for sig in set(ctx.found) - before_sweep if ctx.found[sig]['case'].get('part') == 'sweep')
         # ---- confirm every history signature in isolation (a pristine child runs exactly the minimal pair)
